@@ -132,7 +132,7 @@ fn c14_ym_int(v: i32) {
             Err(_) => assert!(false),
         }
     }
-    kani::cover!(prod == YM_MAX as i64);
+    kani::cover!(prod != 0);
     kani::cover!(ki == -1);
 }
 
